@@ -2,6 +2,7 @@
 (* AES-128-CMAC, NIST SP 800-38B (= RFC 4493): subkey generation 6.1, MAC generation 6.2;
    the full 16-octet tag (callers truncate). *)
 EXTENDS Aes128
+LOCAL INSTANCE SequencesExt       \* FoldLeft
 Zero16 == Zeros(16)
 \* doubling in GF(2^128): shift left one bit, conditional xor of R_128 = 0x87
 Dbl(b) == LET sh == SubSeq([i \in 1..16 |-> ((b[i] * 2) % 256) + (IF i < 16 THEN b[i+1] \div 128 ELSE 0)], 1, 16) IN
@@ -9,8 +10,7 @@ Dbl(b) == LET sh == SubSeq([i \in 1..16 |-> ((b[i] * 2) % 256) + (IF i < 16 THEN
 SubKey1W(w) == Dbl(EncryptW(w, Zero16))
 SubKey1(k) == SubKey1W(KeyWords(k))
 SubKey2(k) == Dbl(SubKey1(k))
-RECURSIVE CbcMac(_,_,_,_)
-CbcMac(w, x, blocks, i) == IF i > Len(blocks) THEN x ELSE CbcMac(w, EncryptW(w, XorS(x, blocks[i])), blocks, i + 1)
+CbcMac(w, blocks) == FoldLeft(LAMBDA x, b : EncryptW(w, XorS(x, b)), Zero16, blocks)
 Cmac(k, m) == LET w == KeyWords(k)
                   k1 == SubKey1W(w)  k2 == Dbl(k1)
                   n == IF Len(m) = 0 THEN 1 ELSE (Len(m) + 15) \div 16
@@ -19,5 +19,5 @@ Cmac(k, m) == LET w == KeyWords(k)
                   last == IF complete THEN XorS(lastraw, k1)
                           ELSE XorS(SubSeq(lastraw \o <<128>> \o Zeros(15), 1, 16), k2)
                   blocks == SubSeq([i \in 1..n |-> IF i < n THEN SubSeq(m, 16*(i-1) + 1, 16*i) ELSE last], 1, n)
-              IN CbcMac(w, Zero16, blocks, 1)
+              IN CbcMac(w, blocks)
 =============================================================================
